@@ -90,7 +90,7 @@ def _job(job):
                              f'(decls {decls}) (cases {cs}))')
             if not sreply.startswith('error'):
                 spec_items = sreply.split(' ; ')
-        parse = module.parse if entry == 'start' else getattr(module, entry).parse
+        parse = module.parse if entry == 'start' or job.get('module_parse') else getattr(module, entry).parse
         for ci, ((pos, text), item) in enumerate(zip(cases, items)):
             g, p = rr.parse_reply_item(item)
             if spec_items is not None:
@@ -270,7 +270,8 @@ def _job_api(job):
         cases = job['cases']
         if entry == '__module__':
             starts = [n for n in w.index if n and n.lower() == 'start']
-            eidx = w.index[starts[0]] if starts else 0
+            # without a rule called start: the first rule that is not ignored
+            eidx = w.index[starts[0]] if starts else next((i for i, r in enumerate(rules) if not getattr(r, 'is_ignored', False)), 0)
         else:
             eidx = w.index[entry]
         req = rr.core_request(w, bodies, ign, eidx, cases, fuel)
